@@ -19,4 +19,16 @@ META = {
                      "implementation is only required not to crash or spin there (comparison skipped, oracle kept)"],
         lenient=lambda cid, impl, model, tags: tags.get("garbage") == "1" and model is not None and model.endswith("hm-irregular"),
     ),
+    "C04": dict(
+        rule="exhaustive enumeration: retry counts {1,2,3,(5),0} x begin reply {ok,failed,transport} x callback "
+             "{nil,error,panic} x every second-phase script (transport^k then ok/failed, transport^max, and one "
+             "longer than the bound) x cancellation {none, before the second phase, during attempt 1, 2}; run through "
+             "the real tm.WithGlobalTx against the scripted fake coordinator; requests per xid and the returned "
+             "value compared with the Lean withGlobalTx. distinct = distinct op; all non-trivial",
+        trusted=["fakecoord (harness/coord.go): scripted coordinator as a getty.Session; transport error = WritePkg "
+                 "error; 'no reply' (20 s RpcRequestTimeout) is represented by the same transport-error class"],
+        assumptions=["retry count 0 (unbounded) is capped by cancelling the context when the script runs out"],
+        exhaustive={"quick": True, "thorough": True},
+        timeout=900,
+    ),
 }
